@@ -341,6 +341,21 @@ Fixpoint remove_first (r : vref) (l : list vref) : list vref :=
   | x :: t => if vref_eqb x r then t else x :: remove_first r t
   end.
 
+(* DEFECT C05-dependency-lost-on-retarget.  Dependencies are recorded as Variable objects (the one the internal
+   variable tracks at that moment) and later compared / looked up BY POINTER, although setVariable() re-targets
+   the internal variable in between.  [dependency_fix = true] is the code with fixes/C05-dependency-retarget.diff
+   (comparison / lookup through the equivalence class); to be switched when that patch is in /repo. *)
+Definition dependency_fix : bool := false.
+
+Fixpoint remove_first_cls (s : system) (k : nat) (l : list vref) : list vref :=
+  match l with
+  | [] => []
+  | x :: t => if v_cls (get_var s x) =? k then t else x :: remove_first_cls s k t
+  end.
+(* check(): "we must remove our dependencies on our unknown variables" *)
+Definition dep_remove (fx : bool) (s : system) (v : ivar) (d : list vref) : list vref :=
+  if fx then remove_first_cls s (iv_cls v) d else remove_first (iv_var v) d.
+
 (* the state threaded through the loop: the internal variables and the two counters
    (stateIndex / variableIndex: number of indices handed out, the C++ value is this minus one) *)
 Record cstate := mkCs { cs_ivs : list ivar; cs_sidx : nat; cs_vidx : nat }.
@@ -420,7 +435,7 @@ Definition check (s : system) (nla : bool) (st : cstate) (e : ieq) : cstate * ie
                      | _ => EAlgebraic
                      end
             end in
-  let deps2 := fold_left (fun d p => remove_first (iv_var (geti (cs_ivs st2) p)) d) unk deps in
+  let deps2 := fold_left (fun d p => dep_remove dependency_fix s (geti (cs_ivs st2) p) d) unk deps in
   (st2, mkIeq (ie_id e) (ie_comp e) ty (ie_lhs e) (ie_rhs e) (ie_diffs e) deps2 vars odes (ie_all e)
               unk (ie_nla e) (ie_sibs e) tc vc, true).
 
@@ -614,7 +629,11 @@ Fixpoint dedup_app (acc : list nat) (l : list nat) : list nat :=
   end.
 
 (* "Make our internal equations available through our API" for the equation at position j; None = skipped *)
-Definition make_aeq (ivs : list ivar) (es : list ieq) (avs : list (nat * avar)) (j : nat) : option aeq :=
+(* analyseModel: "auto variable = v2avMappings[variableDependency]" *)
+Definition dep_lookup (fx : bool) (s : system) (ivs : list ivar) (avs : list (nat * avar)) (d : vref) : option avar :=
+  if fx then lookup_avar avs (ivar_of s ivs d) else lookup_avar_by_var avs d.
+
+Definition make_aeq (s : system) (ivs : list ivar) (es : list ieq) (avs : list (nat * avar)) (j : nat) : option aeq :=
   let e := gete es j in
   let vars := filter_map (lookup_avar avs) (ie_unknown e) in
   let external := forallb (fun a => atype_eqb (av_type a) AExternal) vars in
@@ -634,7 +653,7 @@ Definition make_aeq (ivs : list ivar) (es : list ieq) (avs : list (nat * avar)) 
                    | QExternal => flat_map (fun p => iv_deps (geti ivs p)) (ie_unknown e)
                    | _ => ie_deps e
                    end in
-      let edeps := fold_left (fun acc d => match lookup_avar_by_var avs d with
+      let edeps := fold_left (fun acc d => match dep_lookup dependency_fix s ivs avs d with
                                            | Some a => dedup_app acc (av_eqs a)
                                            | None => acc
                                            end) vdeps [] in
@@ -647,12 +666,12 @@ Definition clean_deps (populated : list nat) (a : aeq) : aeq :=
 
 (* the tail of analyseModel for a model of valid type: dummy equations for the constants, API variables,
    API equations, cleanUpDependencies *)
-Definition package (ty : mtype) (voi : option vref) (ivs2 : list ivar) (es2 : list ieq) : result :=
+Definition package (s : system) (ty : mtype) (voi : option vref) (ivs2 : list ivar) (es2 : list ieq) : result :=
   (* a dummy equation for each true constant *)
   let consts := filter (fun p => vtype_eqb (iv_type (geti ivs2 p)) VConstant) (seq 0 (length ivs2)) in
   let es3 := es2 ++ map (new_var_eq ivs2) consts in
   let avs := make_avars es3 ivs2 0 0 0 in
-  let aeqs := filter_map (make_aeq ivs2 es3 avs) (seq 0 (length es3)) in
+  let aeqs := filter_map (make_aeq s ivs2 es3 avs) (seq 0 (length es3)) in
   let populated := map ae_pos aeqs in
   let aeqs1 := map (clean_deps populated) aeqs in
   mkResult ty [] voi
@@ -682,7 +701,7 @@ Definition finish (s : system) (voi : option vref) (ivs0 : list ivar) (es0 : lis
       | [] =>
           match model_type voi ivs2 es2 with
           | MUnknown => invalid_result MUnknown []
-          | ty => package ty voi ivs2 es2
+          | ty => package s ty voi ivs2 es2
           end
       end
   end.
